@@ -18,6 +18,8 @@ type Slot struct {
 	Path world.Path
 	Node *world.Node
 	Lex  []string // lexical values; for leaf-lists comma separated; for presence/empty ""
+	// NInvalid: the last NInvalid lexical values violate a constraint of the leaf itself
+	NInvalid int
 }
 
 // MLeaf is a leaf as the model knows it.
@@ -206,6 +208,32 @@ func Universe(si *world.SchemaInfo, profile string) []Slot {
 			add(P(E("chl", "name", k), E("i2")), "i2", "i2b")
 			add(P(E("chl", "name", k), E("other")), "q1", "q2")
 		}
+	case "constraints":
+		// by convention the LAST lexical value of the constrained slots is the invalid one
+		add(P(E("sys"), E("hostname")), "h1", "h2")
+		inv := func(n int) { out[len(out)-1].NInvalid = n }
+		add(P(E("sys"), E("mtu")), "100", "9000", "10")
+		inv(1)
+		add(P(E("sys"), E("descr")), "d1", "d2", "waytoolongvalue")
+		inv(1)
+		add(P(E("sys"), E("code")), "abc1", "zz", "ABC")
+		inv(1)
+		add(P(E("sys"), E("nums")), "1,2", "50", "1,99")
+		inv(1)
+		for _, k := range []string{"a", "b"} {
+			add(P(E("k1", "name", k), E("val")), "v1", "v2")
+			add(P(E("cons"), E("ml", "name", k), E("req")), "r1", "r2")
+			add(P(E("cons"), E("ml", "name", k), E("opt")), "o1", "o2")
+		}
+		add(P(E("cons"), E("ref")), "a", "b", "c")
+		add(P(E("cons"), E("refopt")), "a", "zz")
+		add(P(E("cons"), E("lo")), "1", "5")
+		add(P(E("cons"), E("hi")), "9", "5", "3")
+		add(P(E("cons"), E("needshost")), "no", "yes")
+		add(P(E("cons"), E("lim")), "x,y", "x,y,z", "x", "w,x,y,z")
+		inv(2)
+		add(P(E("cons"), E("lmax")), "x", "x,y", "x,y,z")
+		inv(1)
 	default:
 		panic("unknown profile " + profile)
 	}
